@@ -38,7 +38,7 @@ class Ctx:
         self.work.mkdir(parents=True)
         self.violations = []      # list of (what, replay_path)
         self.sigs = {}
-        if REPLAY.exists():
+        if REPLAY.exists() and not os.environ.get("VERIF_KEEP_REPLAY"):
             for f in REPLAY.glob(pid + "-*.json"):
                 f.unlink()
         self.known_hits = []      # list of finding ids
